@@ -1,5 +1,7 @@
 pub mod c03;
 pub mod c04;
+pub mod c10;
+pub mod c16;
 pub mod c19;
 pub mod diffprop;
 pub mod refprops;
@@ -15,8 +17,10 @@ pub fn all() -> Vec<Box<dyn Property>> {
         Box::new(refprops::c07()),
         Box::new(refprops::c08()),
         Box::new(refprops::c09()),
+        Box::new(c10::C10),
         Box::new(refprops::c12()),
         Box::new(refprops::c13()),
+        Box::new(c16::C16),
         Box::new(refprops::c18()),
         Box::new(c19::C19),
     ]
